@@ -137,3 +137,28 @@ Fixpoint inputs_ok (cf : config) (next : option Z) (len : Z) (ops : list op) : P
       inputs_ok cf (Some (blk_first blk + blk_len blk))
                 (Z.min (2 * cf_nsamp cf + 10) (len + blk_len blk)) rest
   end.
+
+(* ---------- vocabulary of the theorems about histories ---------- *)
+(* the requests of a history *)
+Fixpoint edits_of (ops : list op) : list edit :=
+  match ops with
+  | [] => []
+  | OEdit e :: rest => e :: edits_of rest
+  | OCycle _ _ :: rest => edits_of rest
+  end.
+
+(* ground truth of channel c: everything the history delivered to it *)
+Fixpoint truth (c : Z) (ops : list op) : list Z :=
+  match ops with
+  | [] => []
+  | OCycle blk _ :: rest => fst (znth ([], false) (blk_chans blk) c) ++ truth c rest
+  | OEdit _ :: rest => truth c rest
+  end.
+
+(* frame number of the first sample ever delivered *)
+Fixpoint first_frame (ops : list op) : option Z :=
+  match ops with
+  | [] => None
+  | OCycle blk _ :: _ => Some (blk_first blk)
+  | OEdit _ :: rest => first_frame rest
+  end.
